@@ -498,3 +498,40 @@ def shrink(case, fails):
                 return False
             ddmin(list(sw), test_sw)
     return best[0]
+
+
+def oracle_selftest():
+    """Hand-written histories with known verdicts: the linearizability checker must accept exactly the
+    linearizable ones (strict), classify the C03-F1 family as 'relaxed', and reject the rest."""
+    H = lambda *threads: [[{'op': op, 'inv': i, 'ret': r, 'out': o} for (op, i, r, o) in t] for t in threads]
+    ok, exc = (lambda v: ('ok', v)), (lambda n: ('exc', n))
+    lri2, lru2 = M.Spec('LRI', 2), M.Spec('LRU', 2)
+    full = M.apply(lri2, M.apply(lri2, lri2.initial(), ('set', 1, 'a'))[0][1], ('set', 2, 'b'))[0][1]
+    fullu = M.apply(lru2, M.apply(lru2, lru2.initial(), ('set', 1, 'a'))[0][1], ('set', 2, 'b'))[0][1]
+    cases = [
+        ('read after write', lri2, None, H([(('set', 1, 'a'), 1, 2, ok(None))], [(('get', 1), 3, 4, ok('a'))]), {1: 'a'}, [1], 'strict'),
+        ('stale read after write returned', lri2, None, H([(('set', 1, 'a'), 1, 2, ok(None))], [(('get', 1), 3, 4, exc('KeyError'))]), {1: 'a'}, [1], 'no'),
+        ('concurrent read may come first', lri2, None, H([(('set', 1, 'a'), 1, 10, ok(None))], [(('get', 1), 2, 3, exc('KeyError'))]), {1: 'a'}, [1], 'strict'),
+        ('lost update', lri2, None, H([(('set', 1, 'a'), 1, 2, ok(None)), (('set', 1, 'b'), 3, 4, ok(None))], [(('get', 1), 5, 6, ok('a'))]), {1: 'b'}, [1], 'no'),
+        ('final eviction order right', lri2, None, H([(('set', 1, 'a'), 1, 2, ok(None))], [(('set', 2, 'b'), 3, 4, ok(None))]), {1: 'a', 2: 'b'}, [1, 2], 'strict'),
+        ('final eviction order wrong', lri2, None, H([(('set', 1, 'a'), 1, 2, ok(None))], [(('set', 2, 'b'), 3, 4, ok(None))]), {1: 'a', 2: 'b'}, [2, 1], 'no'),
+        ('concurrent sets: either order', lri2, None, H([(('set', 1, 'a'), 1, 9, ok(None))], [(('set', 2, 'b'), 2, 8, ok(None))]), {1: 'a', 2: 'b'}, [2, 1], 'strict'),
+        ('C03-F1: len sees the gap of a replacing insert', lri2, full, H([(('set', 3, 'c'), 1, 10, ok(None))], [(('len',), 4, 5, ok(1))]), {2: 'b', 3: 'c'}, [2, 3], 'relaxed'),
+        ('len above capacity is never explained', lri2, full, H([(('set', 3, 'c'), 1, 10, ok(None))], [(('len',), 4, 5, ok(3))]), {2: 'b', 3: 'c'}, [2, 3], 'no'),
+        ('transient len only while overlapping', lri2, full, H([(('set', 3, 'c'), 1, 3, ok(None))], [(('len',), 4, 5, ok(1))]), {2: 'b', 3: 'c'}, [2, 3], 'no'),
+        ('popitem may return any present pair', lri2, full, H([(('popitem',), 1, 2, ok((1, 'a')))], []), {2: 'b'}, [2], 'strict'),
+        ('popitem of an absent pair', lri2, full, H([(('popitem',), 1, 2, ok((3, 'x')))], []), {1: 'a', 2: 'b'}, [1, 2], 'no'),
+        ('LRU hit refreshes recency', lru2, fullu, H([(('get', 1), 1, 2, ok('a'))], [(('set', 3, 'c'), 3, 4, ok(None))]), {1: 'a', 3: 'c'}, [1, 3], 'strict'),
+        ('LRI hit does not', lri2, full, H([(('get', 1), 1, 2, ok('a'))], [(('set', 3, 'c'), 3, 4, ok(None))]), {1: 'a', 3: 'c'}, [1, 3], 'no'),
+        ('impossible interleaved update', lri2, None, H([(('update', [(1, 'a'), (2, 'b')]), 1, 10, ok(None))],
+                                                      [(('getd', 1, None), 3, 4, ok('a')), (('getd', 2, None), 5, 6, ok(None))]), {1: 'a', 2: 'b'}, [1, 2], 'no'),
+    ]
+    bad = []
+    for name, spec, init, threads, items, order, want in cases:
+        got = linearize.classify(spec, threads, items, order, init)
+        if got != want:
+            bad.append('%s: got %s, want %s' % (name, got, want))
+    if bad:
+        from simkit.driver import HarnessError
+        raise HarnessError('linearizability oracle self-test failed: ' + '; '.join(bad))
+    return '%d hand-written histories classified as expected (strict / relaxed / not linearizable)' % len(cases)
